@@ -35,6 +35,7 @@ class EvalMixin:
         if name in self.c.ghostglobals:
             t = self.c.ghostglobals[name]
             srt = R if t == 'real' else (B if t == 'bool' else I)
+            if t not in ('int', 'bool', 'real'): t = self.resolve_type(t)
             return (env['st'].rd('ghost:' + name, (), srt), t)
         if name in self.c.ghostmaps:
             t = self.c.ghostmaps[name]
